@@ -68,8 +68,26 @@ def run_mutant(kind, key, entry, tier, all_props):
             return res
         if kind == "revert":
             p = sh(f"git -C {REPO} show {key} | git -C {wt} apply -R")
+            if p.returncode:
+                p = sh(f"git -C {REPO} show {key} | git -C {wt} apply -R --3way")
+                if p.returncode or sh(["git", "-C", wt, "diff", "--name-only", "--diff-filter=U"]).stdout.strip():
+                    sh(["git", "-C", wt, "reset", "--hard", "HEAD"])
+                    for hc in json.load(open(os.path.join(VERIF, "MANIFEST.json")))["hooks"].get("source_commits", []):
+                        sh(f"git -C {REPO} show {hc} | git -C {wt} apply -R")
+                    p = sh(f"git -C {REPO} show {key} | git -C {wt} apply -R")
+                    res["note"] = "reverted on the tree without the verification hooks"
         else:
             p = sh(["git", "-C", wt, "apply", entry["patch"]])
+            if p.returncode:                  # the tree has moved on since the change was written (later fix / hook commits): merge it
+                p = sh(["git", "-C", wt, "apply", "--3way", entry["patch"]])
+                if p.returncode == 0 and sh(["git", "-C", wt, "diff", "--name-only", "--diff-filter=U"]).stdout.strip():
+                    p.returncode, p.stderr = 1, "merge conflict"
+                if p.returncode:              # the change rewrites lines a verification hook sits next to: evaluate it on the tree without the hooks
+                    sh(["git", "-C", wt, "reset", "--hard", "HEAD"])
+                    for hc in json.load(open(os.path.join(VERIF, "MANIFEST.json")))["hooks"].get("source_commits", []):
+                        sh(f"git -C {REPO} show {hc} | git -C {wt} apply -R")
+                    p = sh(["git", "-C", wt, "apply", entry["patch"]])
+                    res["note"] = "applied to the tree without the verification hooks"
         if p.returncode:
             res["error"] = "patch does not apply: " + p.stderr[-300:]
             return res
